@@ -564,5 +564,6 @@ var _ = context.Background
 var _ = core.Publish
 
 func TestC17(t *testing.T) {
+	fuseh.LimitOpenFiles(1024)
 	drv.Main(t, drv.Driver{ID: "C17", Gen: gen17, Run: run17, CaseTimeout: 5 * time.Minute})
 }
